@@ -53,4 +53,9 @@ def RxSpec.run : RxSpec → List (PhyIn × Bool) → RxSpec × List Nat
 /-- **Environment predicate of C22.** -/
 def LegalUlpiPhy (h : List (PhyIn × Bool)) : Bool := (RxSpec.run {} h).1.legal
 
+/-- State of the whole translator after an input history (oldest first). -/
+def Utmi.run (cfg : Config) : Utmi → List UtmiIn → Utmi
+  | s, [] => s
+  | s, i :: is => Utmi.run cfg (s.step cfg i).1 is
+
 end LunaVerif.Ulpi
